@@ -84,4 +84,144 @@ C02StepFails(c, l) ==
          <<"original-mutation-leaks-into-copy", ~Has(st, "pc") \/
               SameState(Norm(st.pc), Norm(st.pc_expected))>>
        >>)
+
+(************************  C19 verdict clauses  ****************************)
+(* documented errors of replace_subcircuit (all CircuitError subclasses raised by
+   its validation, the block helpers it calls, rename_gate and the cycle check) *)
+C19DocumentedErrors == {"ReplaceSubcircuitError", "CreateBlockError", "DeleteBlockError",
+   "CircuitValidationError", "GateDoesntExistError", "CircuitGateAlreadyExistsError",
+   "CircuitGateIsAbsentError", "GateHasUsersError", "CircuitIsCyclicalError"}
+(* gates of `pre` evaluated over the row space of the remaining inputs `rem`
+   with the inputs in T fixed to TRUE and those in F fixed to FALSE *)
+CofactorTT(pre, rem, T, F) ==
+  LET n == Len(rem)
+      all == AllRows(n)
+      cols == [x \in SeqSet(pre.i) |->
+                 IF x \in T THEN all ELSE IF x \in F THEN {} ELSE ColOf(n, Pos(rem, x))]
+  IN EvalAlong(pre, TopoSeq(pre), cols, all)
+C19StepFails(c, l) ==
+  LET st == c.steps[l]  a == st.act  pre == HPre(c, l)
+  IN IF ~WellFormed(pre) THEN {}
+     ELSE IF a.a = "rename_gate" /\ st.ret = "ok" THEN
+       LET post == Norm(st.post) IN
+       FailSet(<<
+         <<"rename-every-reference-follows", SameState(post, DoRename(pre, a.old, a.new))>>,
+         <<"rename-keeps-truth-tables",
+             WellFormed(st.post) /\
+             LET t0 == GateTT(pre)  t1 == GateTT(st.post)
+             IN  \A x \in DOMAIN pre.g : Sub1(x, a.old, a.new) \in DOMAIN t1
+                                          /\ t1[Sub1(x, a.old, a.new)] = t0[x]>>
+       >>)
+     ELSE IF a.a = "replace_inputs" /\ st.ret = "ok" THEN
+       LET post == st.post
+           T == SeqSet(a.T)  F == SeqSet(a.F)
+           rem == FilterOut(pre.i, T \cup F)
+       IN FailSet(<<
+         <<"replace_inputs-remaining-inputs-in-order", post.i = rem>>,
+         <<"replace_inputs-outputs-kept", post.o = pre.o>>,
+         <<"replace_inputs-wellformed", WFFails(post) = {}>>,
+         <<"replace_inputs-is-cofactor",
+             post.i # rem \/ WFFails(post) # {} \/
+             LET exp == CofactorTT(pre, rem, T, F)  got == GateTT(post)
+             IN \A x \in DOMAIN pre.g : x \in DOMAIN got /\ got[x] = exp[x]>>
+       >>)
+     ELSE IF a.a = "remove_gate" /\ st.ret = "ok" THEN
+       FailSet(<<
+         <<"remove_gate-succeeded-although-used", a.l \in DOMAIN pre.g /\ UsersSet(pre, a.l) = {}>>,
+         <<"remove_gate-still-present", a.l \notin DOMAIN st.post.g>>,
+         <<"remove_gate-still-an-output", a.l \notin SeqSet(st.post.o)>>
+       >>)
+     ELSE IF a.a = "replace_subcircuit" /\ a.equiv THEN
+       IF st.ret = "ok" THEN
+         FailSet(<<
+           <<"replace_subcircuit-wellformed", WFFails(st.post) = {}>>,
+           <<"replace_subcircuit-interface", Len(st.post.i) = Len(pre.i) /\ Len(st.post.o) = Len(pre.o)>>,
+           <<"replace_subcircuit-function",
+               WFFails(st.post) # {} \/ Len(st.post.i) # Len(pre.i) \/ TT(st.post) = TT(pre)>>
+         >>)
+       ELSE FailSet(<< <<"replace_subcircuit-undocumented-error:" \o st.exc,
+                          st.exc \in C19DocumentedErrors>> >>)
+     ELSE {}
+
+(************************  C10 verdict clauses  ****************************)
+(* denotational composition, independent of how the code splices:          *)
+(* row space = inputs of the result; both circuits are evaluated with the  *)
+(* connector values fed across.                                            *)
+C10ResultInputs(base, other, tc, oc, right) ==
+  \* sequence of <<side, label>> : the documented input list of the composition
+  LET keepB == SelectSeq(base.i, LAMBDA x :
+                 ~right \/ x \notin SeqSet(tc) \/
+                 (\E j \in DOMAIN tc : tc[j] = x /\ other.g[oc[j]].t = "INPUT"))
+      keepO == FilterOut(other.i, SeqSet(oc))
+  IN [j \in 1 .. Len(keepB) |-> <<"b", keepB[j]>>] \o [j \in 1 .. Len(keepO) |-> <<"o", keepO[j]>>]
+C10Expected(base, other, tc, oc, right) ==
+  LET rin == C10ResultInputs(base, other, tc, oc, right)
+      n == Len(rin)
+      all == AllRows(n)
+      col(side, x) == ColOf(n, CHOOSE j \in DOMAIN rin : rin[j] = <<side, x>>)
+      \* last pair wins is NOT assumed: every pair (tc[j], oc[j]) is identified
+      pairIdx(seq, x) == CHOOSE j \in DOMAIN seq : seq[j] = x
+  IN IF ~right
+     THEN LET tb == EvalAlong(base, TopoSeq(base), [x \in SeqSet(base.i) |-> col("b", x)], all)
+              to == EvalAlong(other, TopoSeq(other),
+                      [x \in SeqSet(other.i) |->
+                         IF x \in SeqSet(oc) THEN tb[tc[pairIdx(oc, x)]] ELSE col("o", x)], all)
+          IN [k \in 1 .. Len(FilterOut(base.o, SeqSet(tc))) |-> tb[FilterOut(base.o, SeqSet(tc))[k]]]
+             \o [k \in 1 .. Len(FilterOut(other.o, SeqSet(oc))) |-> to[FilterOut(other.o, SeqSet(oc))[k]]]
+     ELSE LET to == EvalAlong(other, TopoSeq(other),
+                      [x \in SeqSet(other.i) |->
+                         IF x \in SeqSet(oc) THEN col("b", tc[pairIdx(oc, x)]) ELSE col("o", x)], all)
+              tb == EvalAlong(base, TopoSeq(base),
+                      [x \in SeqSet(base.i) |->
+                         IF x \in SeqSet(tc) THEN to[oc[pairIdx(tc, x)]] ELSE col("b", x)], all)
+          IN [k \in 1 .. Len(FilterOut(base.o, SeqSet(tc))) |-> tb[FilterOut(base.o, SeqSet(tc))[k]]]
+             \o [k \in 1 .. Len(FilterOut(other.o, SeqSet(oc))) |-> to[FilterOut(other.o, SeqSet(oc))[k]]]
+(* Region the documentation leaves open (not judged): a right-connection that pairs ONE
+   primary input of the attached circuit with SEVERAL base inputs would have to identify
+   those free base inputs with each other. *)
+C10Unspecified(a) ==
+  a.right /\ \E x \in SeqSet(a.oc) : a.other.g[x].t = "INPUT" /\ Occ(a.oc, x) > 1
+C10StepFails(c, l) ==
+  LET st == c.steps[l]  a == st.act  pre == HPre(c, l)
+  IN IF a.a # "connect" \/ st.ret # "ok" \/ ~WellFormed(pre) THEN {}
+     ELSE IF C10Unspecified(a) THEN {}
+     ELSE LET other == ActOther(a)
+              post == st.post
+              nin == Len(C10ResultInputs(pre, other, a.tc, a.oc, a.right))
+          IN FailSet(<<
+            <<"attached-circuit-modified", st.other_after = st.other_before>>,
+            <<"result-wellformed", WFFails(post) = {}>>,
+            <<"result-input-count", Len(post.i) = nin>>,
+            <<"result-output-count",
+                Len(post.o) = Len(FilterOut(pre.o, SeqSet(a.tc))) + Len(FilterOut(other.o, SeqSet(a.oc)))>>,
+            <<"result-function-is-the-composition",
+                WFFails(post) # {} \/ Len(post.i) # nin \/
+                TT(post) = C10Expected(pre, other, a.tc, a.oc, a.right)>>,
+            <<"block-extraction-raised", ~Has(st, "blkx")>>,
+            <<"block-extraction-gives-attached-function",
+                ~Has(st, "blk") \/
+                (/\ Len(st.blk.i) = Len(other.i) /\ Len(st.blk.o) = Len(other.o)
+                 /\ WFFails(st.blk) = {} /\ TT(st.blk) = TT(other))>>
+          >>)
+
+(************************  C14 verdict clauses  ****************************)
+C14StepFails(c, l) ==
+  LET st == c.steps[l]  a == st.act  pre == HPre(c, l)
+  IN IF a.a # "into_bench" \/ ~WellFormed(pre) THEN {}
+     ELSE IF st.ret # "ok"
+          THEN FailSet(<< <<"into_bench-raised-with-an-input:" \o st.exc, Len(pre.i) = 0>> >>)
+          ELSE LET post == st.post
+                   new == DOMAIN post.g \ DOMAIN pre.g
+               IN FailSet(<<
+                 <<"inputs-kept", post.i = pre.i>>,
+                 <<"outputs-kept", post.o = pre.o>>,
+                 <<"only-bench-types", \A x \in DOMAIN post.g : post.g[x].t \in BenchTypes>>,
+                 <<"wellformed", WFFails(post) = {}>>,
+                 <<"function-kept", WFFails(post) # {} \/ post.i # pre.i \/
+                      LET t0 == GateTT(pre)  t1 == GateTT(post)
+                      IN \A x \in DOMAIN pre.g : x \in DOMAIN t1 /\ t1[x] = t0[x]>>,
+                 <<"helper-gates-inside-the-blocks-of-the-rewritten-gate",
+                      \A h \in new : \A n \in DOMAIN post.b : \A w \in UsersSet(post, h) :
+                         w \in SeqSet(post.b[n].g) => h \in SeqSet(post.b[n].g)>>
+               >>)
 =============================================================================
